@@ -1,11 +1,11 @@
 package props
 
 import (
-	"go/types"
 	"bufio"
 	"bytes"
 	"fmt"
 	"go/token"
+	"go/types"
 	"os/exec"
 	"path/filepath"
 	"regexp"
